@@ -40,6 +40,8 @@ def clause_key(logic, c, shape, over=True, ob=None):
         return 'unsaturated:identity-symmetry:cpl.IdentityIndiscernability(never yields b = a from a = b)'
     if c == 8:
         return 'unsaturated:identity-single-occurrence:cpl.IdentityIndiscernability(replaces all occurrences at once)'
+    if c == 9:
+        return f'unsaturated:{logic}:identity-substitution-unapplied'
     return f'unsaturated:{logic}:{CLAUSE.get(c, str(c))}:{shape}'
 
 
@@ -119,7 +121,7 @@ def gen_jobs(logics, examples, tier, seed):
                 jobs.append(dict(logic=n, argstr=a, kind='modal-quantified', models=True))
         if 'SelfIdentityClosure' in L['closure']:
             # identity: symmetry, single-occurrence substitution, transitivity through a mirror image
-            for a in ('Imn:Inm', 'Fmn:Fmm:Imn', 'Imo:Inm:Ino', 'Fnm:Fmn:Imn'):
+            for a in ('Imn:Inm', 'Fmn:Fmm:Imn', 'Imo:Inm:Ino', 'Fnm:Fmn:Imn', 'Gnn:Imn:Gmn', 'e:AaImn:Gmn:NGnn', 'Hnnn:Imn:Hmmm'):
                 jobs.append(dict(logic=n, argstr=a, kind='identity', models=True))
     for i, j in enumerate(jobs):
         j['id'] = i
@@ -143,6 +145,38 @@ def run(args) -> int:
     has_thm = emit_complete(chk, g, facts, rules)
     examples = probe_json('probe_examples.py')['titles']
     jobs = gen_jobs(logics, examples, args.tier, args.seed)
+    # every truth-functional rule once in the trunk of an (almost always) invalid argument: the model read off the open
+    # branches must satisfy the rule's principal node
+    import c03 as _c03
+    A_, B_, C_ = ['A', 0], ['A', 1], ['A', 2]
+    per_rule_base, per_rule_more = [], []
+    for n_, ent in rules.items():
+        for rule in ent['rules']:
+            if rule.get('kind') != 'op' or 'error' in rule:
+                continue
+            o = rule['operator']
+            phi = ['U', o, A_] if o in _c03.TF_OPS_U else ['B', o, A_, B_]
+            if rule['negated']:
+                phi = ['U', 'Negation', phi]
+            lits = [A_, B_, ['U', 'Negation', A_], ['U', 'Negation', B_]]
+            for extra in ([], [lits[0]], [lits[1]], [lits[2]], [lits[3]], [lits[2], lits[3]], [lits[0], lits[3]], [lits[2], lits[1]]):
+                if rule['designation'] is not False:
+                    j_ = dict(logic=n_, premises=[phi] + extra, conclusion=C_, kind='per-rule', models=True, rule=rule['name'])
+                else:
+                    j_ = dict(logic=n_, premises=extra, conclusion=phi, kind='per-rule', models=True, rule=rule['name'])
+                (per_rule_base if not extra else per_rule_more).append(j_)
+    _rng = random.Random(f'{args.seed}:per-rule')
+    # rules whose exactness obligation (C03/C04) is refuted and that are not recorded there as known findings get
+    # every operand-forcing variant in the quick tier too (the failing-input search for the Hintikka step)
+    known_rule_keys = {k for (pid_, k), f in chk.known.items() if f.get('status') == 'open' and pid_ in ('C03', 'C04', 'C01')}
+    suspects = {(n_, rn) for n_, v in info3.items() for rn in v.get('bad_rules', ())
+                if not any(k.endswith(f'{n_}:{rn}') or f':{n_}:{rn}:' in k for k in known_rule_keys)}
+    targeted = [j_ for j_ in per_rule_more if (j_['logic'], j_['rule']) in suspects]
+    rest = [j_ for j_ in per_rule_more if (j_['logic'], j_['rule']) not in suspects]
+    jobs += per_rule_base + targeted + (rest if args.tier != 'quick' else _rng.sample(rest, min(len(rest), 500)))
+    chk.notes['per_rule_targeted'] = sorted(f'{a}:{b}' for a, b in suspects)
+    for i_, j_ in enumerate(jobs):
+        j_['id'] = i_
     orders = [0] if args.tier == 'quick' else [0, 1, 2]
     n_branches = n_cert = 0
     model_err_unattributed, model_err_attributed = {}, set()
@@ -208,7 +242,7 @@ def run(args) -> int:
             coq_bad = bool(failing) or not cm
             lib_bad = bool(lib_fail) or ob.get('lib_countermodel') is not True
             over = ob.get('max_worlds') is not None and ob.get('n_worlds', 0) > ob['max_worlds']
-            keys = sorted({clause_key(n, c, ('frame' if c in (4, 6, 7, 8) else ob['shapes'][k]), over, ob) for k, c in unsat_all})
+            keys = sorted({clause_key(n, c, ('frame' if c in (4, 6, 7, 8, 9) else ob['shapes'][k]), over, ob) for k, c in unsat_all})
             if ob.get('model') is None:
                 # ModelValueError while reading this tableau's open branches
                 rep.update(model_error=r.get('model_error'), tb=r.get('model_tb'))
